@@ -81,12 +81,13 @@ def generate(rng, ctx):
                            rng.choice([None, None, "malformed", "caller-error", "unknown-method"])]
                           for _ in range(rng.randrange(2, 7))]
     if kind == "malformed":
-        case["what"] = rng.choice(["short", "unaligned", "empty", "method", "iv_only", "trunc_block", "extended"])
+        case["what"] = rng.choice(["short", "unaligned", "empty", "method", "iv_only", "trunc_block", "extended", "wrong_type", "wrong_type"])
         case["bad_method"] = rng.choice(["rot13", "", "AES", "Xor", "aes ", None, 5, ["aes"], "best2", b"aes"])
     if kind == "stored":
         case["what"] = rng.choice(["int", "list", "bool", "bytes", "float", "no_method", "no_ct", "ct_int", "ct_bytes",
                                    "ct_none", "bad_pad_b64", "missing_pad_b64", "method_int", "method_list", "unknown_method",
-                                   "short_ct", "unaligned_ct", "empty_dict", "tuple"])
+                                   "short_ct", "unaligned_ct", "empty_dict", "tuple", "not_base64", "foreign_chars_in_b64",
+                                   "text_after_padding"])
     return case
 
 
@@ -370,6 +371,9 @@ def run(case, ctx, res):
                 bad = SV("aes", good[:-16]) if len(good) > 32 else SV("aes", good[:16])
             elif what == "extended":
                 bad = SV("aes", good + bytes(16))
+            elif what == "wrong_type":
+                # a ciphertext that is no byte string at all, for either method (an int N must not come back as N bytes of key)
+                bad = SV(["aes", "xor"][case["r"] % 2], [32, 7, "hello", [1, 2, 3], None, 1.5, ("a",)][case["r"] % 7])
             else:
                 bad = SV(case["bad_method"], good)
             err, val = _raises(lambda: k.decrypt(bad))
@@ -381,8 +385,16 @@ def run(case, ctx, res):
                 res.count("altered_ciphertext_checks")
             else:
                 if not err:
-                    res.viol("M-malformed", feat, "malformed input %r returned %r instead of an error" % (
-                        (bad.method, len(bad.ciphertext)), val))
+                    res.viol("M-malformed", feat + (":" + bad.method if what == "wrong_type" else ""), "malformed input %r returned %r instead of an error" % (
+                        (bad.method, bad.ciphertext if what == "wrong_type" else len(bad.ciphertext)), val))
+                else:
+                    res.count("malformed_rejected")
+            if what == "wrong_type":
+                plain_bad = [5, [1, 2], None, 2.5, {"a": 1}][case["r"] % 5]
+                err, val = _raises(lambda: k.encrypt(plain_bad, method=bad.method))
+                if not err:
+                    res.viol("M-malformed", feat + ":encrypt:" + bad.method, "encrypt(%r, method=%r) returned %r instead of an error" % (
+                        plain_bad, bad.method, val.ciphertext if hasattr(val, "ciphertext") else val))
                 else:
                     res.count("malformed_rejected")
             if what == "method":
@@ -412,6 +424,11 @@ def run(case, ctx, res):
             "method_int": {"method": 5, "ciphertext": b64}, "method_list": {"method": ["aes"], "ciphertext": b64},
             "unknown_method": {"method": "rot13", "ciphertext": b64},
             "short_ct": {"method": "aes", "ciphertext": base64.b64encode(sv.ciphertext[:20]).decode()},
+            # text that is not base64 at all, or base64 followed / interrupted by other characters (a lenient decoder drops
+            # what it does not know and stops at the first complete padding)
+            "not_base64": {"method": sv.method, "ciphertext": "!!!! ???? ####"},
+            "foreign_chars_in_b64": {"method": sv.method, "ciphertext": "@@@" + b64[:6] + "$$ !" + b64[6:]},
+            "text_after_padding": {"method": sv.method, "ciphertext": b64 + ("" if b64.endswith("=") else "==") + "QUJDRA== and more"},
             "unaligned_ct": {"method": "aes", "ciphertext": base64.b64encode(sv.ciphertext + b"zz").decode()
                              if sv.method == "aes" else base64.b64encode(bytes(37)).decode()},
         }[what]
